@@ -18,7 +18,7 @@
 (***************************************************************************)
 EXTENDS Fix
 
-FinderNames == {"Mercury.inferior_conjunction", "Mercury.superior_conjunction", "Mercury.eastern_elongation", "Mercury.western_elongation", "Mercury.station_longitude_1", "Mercury.station_longitude_2", "Venus.inferior_conjunction", "Venus.superior_conjunction", "Venus.eastern_elongation", "Venus.western_elongation", "Venus.station_longitude_1", "Venus.station_longitude_2", "Mars.conjunction", "Mars.opposition", "Mars.station_longitude_1", "Mars.station_longitude_2", "Jupiter.conjunction", "Jupiter.opposition", "Jupiter.station_longitude_1", "Jupiter.station_longitude_2", "Saturn.conjunction", "Saturn.opposition", "Saturn.station_longitude_1", "Saturn.station_longitude_2", "Uranus.conjunction", "Uranus.opposition", "Neptune.conjunction", "Neptune.opposition", "Mercury.perihelion_aphelion", "Mercury.passage_nodes", "Venus.perihelion_aphelion", "Venus.passage_nodes", "Earth.perihelion_aphelion", "Earth.passage_nodes", "Mars.perihelion_aphelion", "Mars.passage_nodes", "Jupiter.perihelion_aphelion", "Jupiter.passage_nodes", "Saturn.perihelion_aphelion", "Saturn.passage_nodes", "Uranus.perihelion_aphelion", "Uranus.passage_nodes"}
+FinderNames == {"Mercury.inferior_conjunction", "Mercury.superior_conjunction", "Mercury.eastern_elongation", "Mercury.western_elongation", "Mercury.station_longitude_1", "Mercury.station_longitude_2", "Venus.inferior_conjunction", "Venus.superior_conjunction", "Venus.eastern_elongation", "Venus.western_elongation", "Venus.station_longitude_1", "Venus.station_longitude_2", "Mars.conjunction", "Mars.opposition", "Mars.station_longitude_1", "Mars.station_longitude_2", "Jupiter.conjunction", "Jupiter.opposition", "Jupiter.station_longitude_1", "Jupiter.station_longitude_2", "Saturn.conjunction", "Saturn.opposition", "Saturn.station_longitude_1", "Saturn.station_longitude_2", "Uranus.conjunction", "Uranus.opposition", "Neptune.conjunction", "Neptune.opposition", "Mercury.perihelion_aphelion", "Mercury.passage_nodes", "Venus.perihelion_aphelion", "Venus.passage_nodes", "Earth.perihelion_aphelion", "Earth.passage_nodes", "Mars.perihelion_aphelion", "Mars.passage_nodes", "Jupiter.perihelion_aphelion", "Jupiter.passage_nodes", "Saturn.perihelion_aphelion", "Saturn.passage_nodes", "Uranus.perihelion_aphelion", "Uranus.passage_nodes", "Moon.moon_phase", "Moon.moon_perigee_apogee", "Moon.moon_passage_nodes", "Moon.moon_maximum_declination"}
 FinderRow(f) ==
   CASE
      f = "Mercury.inferior_conjunction" -> [P |-> Add(FromInt(115), Dec(87750, 5)), lo |-> 823, hi |-> 1234, acc |-> 1, qdep |-> FALSE, ranged |-> TRUE]
@@ -63,6 +63,10 @@ FinderRow(f) ==
   [] f = "Saturn.passage_nodes" -> [P |-> Add(FromInt(10764), Dec(21680, 5)), lo |-> 970, hi |-> 1030, acc |-> 2, qdep |-> TRUE, ranged |-> FALSE]
   [] f = "Uranus.perihelion_aphelion" -> [P |-> Add(FromInt(30694), Dec(87670, 5)), lo |-> 990, hi |-> 1011, acc |-> 2, qdep |-> FALSE, ranged |-> FALSE]
   [] f = "Uranus.passage_nodes" -> [P |-> Add(FromInt(30694), Dec(87670, 5)), lo |-> 990, hi |-> 1011, acc |-> 2, qdep |-> TRUE, ranged |-> FALSE]
+  [] f = "Moon.moon_phase" -> [P |-> Add(FromInt(29), Dec(53059, 5)), lo |-> 980, hi |-> 1020, acc |-> 1, qdep |-> FALSE, ranged |-> FALSE]
+  [] f = "Moon.moon_perigee_apogee" -> [P |-> Add(FromInt(27), Dec(55455, 5)), lo |-> 790, hi |-> 1075, acc |-> 1, qdep |-> FALSE, ranged |-> FALSE]
+  [] f = "Moon.moon_passage_nodes" -> [P |-> Add(FromInt(27), Dec(21222, 5)), lo |-> 985, hi |-> 1020, acc |-> 1, qdep |-> FALSE, ranged |-> FALSE]
+  [] f = "Moon.moon_maximum_declination" -> [P |-> Add(FromInt(27), Dec(32158, 5)), lo |-> 990, hi |-> 1016, acc |-> 1, qdep |-> FALSE, ranged |-> FALSE]
 
 \* constant-level table: evaluated once by TLC
 FinderTable == [f \in FinderNames |-> FinderRow(f)]
